@@ -64,6 +64,7 @@ def run_jobs(jobs, job_timeout):
     pending = list(enumerate(jobs))
     running = {}
     results = [None] * len(jobs)
+    retried = set()
     while pending or running:
         while pending and len(running) < NCPU:
             i, a = pending.pop(0)
@@ -73,22 +74,37 @@ def run_jobs(jobs, job_timeout):
             cc.close()
             running[i] = (p, pc, time.time(), a)
         done = []
+        died = []
         for i, (p, pc, t0, a) in running.items():
             if pc.poll():
                 try:
                     results[i] = pc.recv()
                 except EOFError:
-                    results[i] = dict(tag=a[3], fixed=a[1], ok=False, error='worker process died (exit code %s)' % p.exitcode, wall=time.time() - t0)
+                    died.append(i)
                 p.join(5)
                 done.append(i)
             elif not p.is_alive():
-                results[i] = dict(tag=a[3], fixed=a[1], ok=False, error='worker process died (exit code %s)' % p.exitcode, wall=time.time() - t0)
+                # the child may have written its result just before exiting: look once more before declaring it dead
+                if pc.poll(0.2):
+                    try:
+                        results[i] = pc.recv()
+                    except EOFError:
+                        died.append(i)
+                else:
+                    died.append(i)
                 done.append(i)
             elif time.time() - t0 > (a[2].get('job_timeout') or job_timeout):
                 p.terminate()
                 p.join(5)
                 results[i] = dict(tag=a[3], fixed=a[1], ok=False, error='job exceeded the wall-clock cap of %d s' % (a[2].get('job_timeout') or job_timeout), wall=time.time() - t0)
                 done.append(i)
+        for i in died:
+            p, pc, t0, a = running[i]
+            if i not in retried:
+                retried.add(i)           # a worker that vanished without a result (killed under memory pressure, solver crash) is run once more
+                pending.append((i, a))
+            else:
+                results[i] = dict(tag=a[3], fixed=a[1], ok=False, error='worker process died twice (exit code %s)' % p.exitcode, wall=time.time() - t0)
         for i in done:
             running.pop(i)
         if not done:
